@@ -359,6 +359,8 @@ def call_predicate(fn: Callable, node: Node) -> IterationControl | None | Any:
         return e  # SkipBranch, SelectBranch, StopTraversal
     except StopIteration as e:  # Also accept this builtin exception
         return StopTraversal(e.value)
+    if isinstance(res, type) and issubclass(res, IterationControl):
+        return res()  # The special values may also be returned as class
     return res
 
 
